@@ -398,6 +398,8 @@ def run(tier, seed, replay_case=None):
     rep = core.Report(PROP, tier, seed)
     core.lean_build()
     aud = core.audit(PROP)
+    from vh import bridge
+    bridge.check(rep, PROP)
     total = 800 if tier == 'quick' else 10000
     items = []
     corpus = core.load_corpus(PROP) if replay_case is None else [replay_case]
